@@ -214,6 +214,8 @@ theorem writeIndex_lost (f : Facts) (p : Plan) (hf : f.all = true) (w : W) : (wr
 /-! ## layer 2: file operations -/
 
 inductive Op
+  | touch (s : Suffix)         -- os.OpenFile(O_CREATE|O_RDWR): creates an empty file unless it exists (`mustOpenFile`)
+  | fill                       -- an acknowledged bulk: .docs and .meta both hold complete blocks (what C01 establishes)
   | create (s : Suffix)        -- os.Create (truncates): the file exists and is being written
   | write (s : Suffix)         -- some bytes were appended
   | lose (s : Suffix)          -- a write failed and nobody noticed: the file will have a hole
@@ -232,6 +234,8 @@ structure St where
 
 def step (o : Op) (st : St) : St :=
   match o with
+  | .touch s => if st.fs.get s = .absent then { fs := st.fs.set s .empty, unsynced := s :: st.unsynced } else st
+  | .fill => { st with fs := { st.fs with docs := .full, metaF := .full } }
   | .create s => { fs := st.fs.set s .empty, unsynced := s :: st.unsynced }
   | .write s => { st with fs := st.fs.set s (match st.fs.get s with | .absent => .absent | .holed => .holed | _ => .torn) }
   | .lose s => { st with fs := st.fs.set s (match st.fs.get s with | .absent => .absent | _ => .holed) }
